@@ -63,6 +63,8 @@ def build(spectrum, cloud):
     elif cloud == "monocloud":
         cfg.simulation.cloud_model = Sim.MonoCloud()
         extra = extra | {("simulation", "cloud_model", "altitude")}
+    elif cloud == "monocloud_default":
+        cfg.simulation.cloud_model = Sim.MonoCloud()  # altitude left at its default, -inf: a value FITS cannot represent
     else:
         cfg.simulation.cloud_model = Sim.PressureMapCloud(month=7)
     orig = {}
@@ -93,6 +95,8 @@ class Header:
             kk = k[len("HIERARCH "):] if k.upper().startswith("HIERARCH ") else k
             if isinstance(v, tuple):
                 v = v[0]
+            if isinstance(v, float) and (v != v or v in (float("inf"), float("-inf"))):
+                continue  # FITS has no representation of NaN / infinity: the card does not survive the file (validated on real astropy in replay)
             self.d[kk.upper()] = v
 
     def _k(self, k):
@@ -213,7 +217,7 @@ def job_flatten(tier):
 def jobs(tier, seed):
     out = [("flat", "job_flatten", {"tier": tier})]
     for s in ("mono", "power"):
-        for c in ("no_cloud", "monocloud", "pressure_map"):
+        for c in ("no_cloud", "monocloud", "monocloud_default", "pressure_map"):
             out.append((f"rt{s}{c}", "job_roundtrip", {"spectrum": s, "cloud": c, "tier": tier}))
     return out
 
@@ -269,6 +273,8 @@ def _real_roundtrip(job, ob, values, leaf):
     cloud = job.split(", ")[1].rstrip(")") if ", " in job else "no_cloud"
     if cloud == "monocloud":
         cfg.simulation.cloud_model = Simulation.MonoCloud(altitude=2.5)
+    elif cloud == "monocloud_default":
+        cfg.simulation.cloud_model = Simulation.MonoCloud()
     elif cloud == "pressure_map":
         cfg.simulation.cloud_model = Simulation.PressureMapCloud(month=7)
     applied = {}
@@ -301,8 +307,8 @@ def _real_roundtrip(job, ob, values, leaf):
                 with _fits.open(p) as hd:
                     hdr = hd[1].header
                     for path, val in _leaves(cfg.model_dump()):
-                        if val is None:
-                            continue
+                        if val is None or (isinstance(val, float) and (val != val or val in (float("inf"), float("-inf")))):
+                            continue  # the statement is about values FITS can represent
                         key = "Config " + " ".join(path)
                         if key not in hdr:
                             return {"reproduced": True, "key": "results header lacks a configuration entry",
